@@ -78,5 +78,41 @@ add("C04", "TestC04", "exploration",
     "Generated-input search: each scan must yield exactly the model's slice of retained entries (keys bytewise, each once, ascending, value bytes equal to the independent reference encoding, nil when not requested/supplied), invoke the callback exactly once per entry, stop at the stop point, and report exhaustion on 3 further calls. On a non-Complete trie a scan must panic before yielding anything, or yield exactly the model's answer (possible only when the trie happens to hold complete keys).",
     "Trusted: reference model, reference value encodings, legacy 0.5.10 writer (validated against the archive).", RAPID, "DESIGN.md §4 C04")
 
+add("C05", "TestC05", "exploration",
+    dict(cases=2400, shards=4), dict(cases=100000, shards=16, timeout_s=3000),
+    "3/4 round-trip cases: a generated trie (all modes/encoders/value layouts) marshalled, rebuilt, reloaded via Unmarshal or proto.Unmarshal; 1/4 history cases: a drawn sequence of 1..6 operations {Unmarshal, proto.Unmarshal, Reset, Unmarshal(truncated stream), Unmarshal(incompatible version)} on ONE instance over a pool of 2..4 streams (empty/small/large, different modes, current and legacy layouts); non-trivial = round trip of a trie with >= 1 inner node, or a history in which a smaller stream or a failed load follows a larger one",
+    "Round trip: len(Marshal) == proto.Size, building twice gives identical bytes, proto.Marshal == Marshal, re-marshalling the loaded trie reproduces the bytes, and every API (Get/GetID/RangeGet/Search on Q(keys), scans, Stat, String) answers identically on the fresh and the loaded trie (including false positives). Histories (stateful, model = a fresh twin loaded with only the last successfully applied stream): after every step the instance is observationally equal to the twin; empty on every API after Reset; empty for lookups and scans after a failed load.",
+    "Trusted: the twin (a fresh instance loaded once) as the model of 'no residue'. Stat() after a FAILED direct Unmarshal is not asserted (no listed property constrains it).",
+    RAPID + " + model-based operation sequences (stateful)", "DESIGN.md §4 C05")
+
+add("C06", "TestC06", "exploration",
+    dict(cases=2500, shards=4, extra=[dict(test="TestC06Fidelity"), dict(test="TestC06Archive", shards=4)]),
+    dict(cases=100000, shards=16, timeout_s=3000, extra=[dict(test="TestC06Fidelity"), dict(test="TestC06Archive", shards=8)]),
+    "key sets K1..K7/Krand bounded by what the old writers could encode x fixed-size encoders x 8 layouts (three-section families A 0.5.0, B 0.5.1-3, C1 0.5.4-6, C2 0.5.7, D 0.5.8, E 0.5.9 with header 1.0.0/0.5.8/0.5.9; 0.5.10 and 0.5.11 in nopref/innpref/allpref); streams are PRODUCED by re-implemented writers; plus the 97 archived files; non-trivial = >= 2 keys and the loader's conversion did something (a key ending at an inner node or a step for three-section; a stored prefix or leaf reconstruction for 0.5.10)",
+    "Generated-input search: every generated legacy stream must load without error and answer Get, RangeGet and Search for every indexed key as the model; KeyCnt preserved; allpref streams additionally give exact answers on Q(keys) and correct scans.",
+    "Trusted base: the re-implemented legacy writers. Their fidelity is measured on every run (writer_fidelity in the evidence: archived files reproduced byte-for-byte); the three-section writer shares no code with /repo, the 0.5.10 writer is a transformation of the current builder's message.",
+    RAPID + " over streams produced by validated re-implementations of the historical writers", "DESIGN.md §4 C06, §3.5")
+
+add("C07", "TestC07", "fault_enumeration",
+    dict(cases=600, shards=4), dict(cases=30000, shards=16, timeout_s=3000, fuzz=dict(target="FuzzC07", seconds=240)),
+    "2/3 cut cases: a stream of a drawn layout (current x 4 modes, 0.5.10/0.5.11 x 3, three-section x 6) from a K1-K3/K5 key set; EVERY cut 0..len-1 when the stream is <= 4 KiB, else every cut within +-64 bytes of each header/section/top-level-field boundary plus up to 256 drawn cuts; the instance holds other data before each cut load. 1/3 version cases: the header version replaced by a string from a grammar (released 0.5.x outside the set, successors, other semver triples, pre-release suffixes, malformed, 16 bytes without terminator, random bytes; compatible strings as positive controls); non-trivial = a stream with cuts inside a body, or any version case",
+    "Fault enumeration over the cut point of an interrupted write: each strict prefix must be rejected with an error (no panic, no success) and the instance must then answer lookups and scans as an empty trie; incompatible/unparsable versions must be rejected with ErrIncompatible in the cause chain and leave the instance empty; compatible versions must load and answer.",
+    "Trusted: legacy writers (C06). A compatible triple with +build metadata is deliberately not in the must-reject set (semver precedence ignores build metadata).",
+    "fault enumeration (every cut point of generated streams) + grammar-generated version strings, rapid-driven", "DESIGN.md §4 C07")
+
+add("C08", "TestC08", "exploration",
+    dict(cases=3000, shards=4, extra=[dict(test="TestC08Ladder", shards=4)]),
+    dict(cases=100000, shards=16, timeout_s=3000, extra=[dict(test="TestC08Ladder", shards=16)]),
+    "valid lists (K1..K6/Krand up to 10^4 keys) with 1..3 injected order violations at drawn indexes (equal neighbours, swapped neighbours, key followed by its own prefix, 0x7f/0x80 and 0xff/0x00 pairs in signed order), valid controls, and key sets whose single-branch run has a drawn length around the 16-bit step boundary; plus the enumerated step ladder L in {0,1,2,255..257,32767,32768,65534..65537,70000,131071,131072,200000}+-2 x 4 placements x 4 modes x dedup x values; non-trivial = violation not at the first/last index, or L within +-2 of a power-of-two boundary",
+    "Generated-input search: independent strict-order predicate => (error with cause ErrKeyOutOfOrder and nil trie) for every invalid list, acceptance for every valid list within the documented 16 KiB key length; whatever is accepted must find every key it was built from with its value (Get and RangeGet).",
+    "Trusted: bytes.Compare as the order predicate; reference model.",
+    RAPID + " + enumerated step-length ladder", "DESIGN.md §4 C08")
+
+add("C20", "TestC20", "exploration",
+    dict(cases=2000, shards=4), dict(cases=80000, shards=16, timeout_s=3000),
+    "cases as C01 in every layout (current and, for half of the cases, one of 8 legacy layouts), 1/10 rejected (out-of-order) inputs; scribble pattern all-0x00 / all-0xff / pseudo-random; non-trivial = >= 2 keys with values or stored prefixes",
+    "Before/after snapshots and a differential against a pristine twin: NewSlimTrie leaves keys, values and the Opt struct (pointer identities and pointees) unchanged, also for rejected input; Unmarshal leaves its input buffer unchanged and overwriting the buffer afterwards changes no answer (lookups on Q(keys), scans, Stat, String, Marshal); overwriting Marshal output changes neither later answers nor later Marshal output; two Marshal results do not share memory.",
+    "Trusted: legacy writers for the legacy layouts.", "snapshot + differential property-based testing (rapid)", "DESIGN.md §4 C20")
+
 json.dump(T, open("props.json", "w"), indent=1, sort_keys=True)
 print(len(T), "properties")
